@@ -16,7 +16,9 @@ func XMultiSameMethod() *spec.Spec {
 
 // Extended returns the extended families (everything beyond the documented core combinations).
 func Extended(thorough bool) []*spec.Spec {
-	return []*spec.Spec{XMultiSameMethod(), XCrossFile(), XTwoServiceFiles()}
+	out := []*spec.Spec{XMultiSameMethod(), XCrossFile(), XTwoServiceFiles()}
+	out = append(out, CtxSpecs()...)
+	return out
 }
 
 // XCrossFile: annotated types live in a service-less file of the same Go package; the service file uses them.
@@ -26,7 +28,8 @@ func XCrossFile() *spec.Spec {
 		Enums: []*spec.Enum{{Name: "Level", Values: []*spec.EnumValue{{Name: "LEVEL_UNSPECIFIED", Num: 0, Custom: spec.Str("none")}, {Name: "LEVEL_HIGH", Num: 1, Custom: spec.Str("high")}}}},
 		Messages: []*spec.Message{
 			spec.M("Money", spec.F("units", "int64").I64(spec.EncNumber), spec.F("currency", "string")),
-			spec.M("Blob", spec.F("data", "bytes").BEnc(spec.BytesHex), spec.Ts("at").TsF(spec.TsUnixMs)),
+			spec.M("Blob", spec.F("data", "bytes").BEnc(spec.BytesHex)),
+			spec.M("Stamp", spec.Ts("at").TsF(spec.TsUnixMs)),
 			spec.M("Geo", spec.F("lat", "double"), spec.F("lng", "double")),
 			spec.M("Place", spec.F("name", "string"), spec.Msg("geo", "Geo").FlatP("geo_"), spec.F("note", "string").Opt()),
 			spec.M("Noted", spec.F("note", "string").Opt().Null()),
@@ -36,14 +39,14 @@ func XCrossFile() *spec.Spec {
 		}}
 	svc := &spec.File{Path: "x_xfile.proto", Package: pkg, Imports: []string{types.Path},
 		Messages: []*spec.Message{
-			spec.M("Order", spec.F("id", "string"), spec.Msg("total", "Money"), spec.Msg("blob", "Blob"), spec.Msg("place", "Place"),
+			spec.M("Order", spec.F("id", "string"), spec.Msg("total", "Money"), spec.Msg("blob", "Blob"), spec.Msg("stamp", "Stamp"), spec.Msg("place", "Place"),
 				spec.Msg("tagged", "Tagged"), spec.Msg("by_key", "Items").Map(), spec.Msg("shape", "Shape")),
 		},
 		Services: []*spec.Service{EchoService("OrderService", "Order", "Money", "Place", "Shape")}}
 	other := &spec.File{Path: "x_xfile_other.proto", Package: pkg,
 		Messages: []*spec.Message{spec.M("Unrelated", spec.F("big", "uint64").I64(spec.EncNumber))}}
 	s := &spec.Spec{Name: "x_xfile", Files: []*spec.File{types, svc, other}}
-	return withCell(s, "ext/unit=cross_file", "extended", "valid", "codec", "multifile")
+	return withCell(s, "ext/unit=cross_file", "extended", "valid", "genonly", "multifile")
 }
 
 // XTwoServiceFiles: two files of one Go package, each with a service.
@@ -56,5 +59,5 @@ func XTwoServiceFiles() *spec.Spec {
 		Messages: []*spec.Message{spec.M("BReq", spec.F("id", "string")), spec.M("BResp", spec.F("id", "string"))},
 		Services: []*spec.Service{spec.Svc("BService", "/b", spec.RPC("GetB", "BReq", "BResp", "POST", "/get"))}}
 	s := &spec.Spec{Name: "x_twosvc", Files: []*spec.File{a, b}}
-	return withCell(s, "ext/unit=two_service_files", "extended", "valid", "multifile")
+	return withCell(s, "ext/unit=two_service_files", "extended", "valid", "genonly", "multifile")
 }
